@@ -29,7 +29,7 @@ RULE = ("calendar: every hour of 2020 (leap) and 2021 in the listed timezones x 
 ASSUMPTIONS = ["an hour's month is its local calendar month in the index's timezone",
                "bin 0 is 'filled' with min(T, first endpoint) (it is unbounded below), the last bin with max(T - last endpoint, 0)"]
 REQUIRED_REACH = {"post.segment_time_series": 40, "post.bin_features": 64, "post.time_features": 10, "post.occupancy_feature": 10,
-                  "post.prediction_feature_processor": 90, "boundary.routing": 16, "boundary.routing_partial_model": 8, "boundary.routing_month_in_two_runs": 8, "clause.partition_rows": 100000,
+                  "post.prediction_feature_processor": 90, "boundary.routing": 16, "boundary.routing_partial_model": 8, "boundary.routing_month_in_two_runs": 8, "history.same_instants_on_another_wall_clock": 60, "history.same_end_points_and_length_another_interior": 40, "clause.partition_rows": 100000,
                   "clause.bin_cells": 10000, "clause.how_values_168": 1}
 REQUIRED_REACH_THOROUGH = {"post.fit_feature_processor": 12, "boundary.real_fit_routing": 1, "repo_tests.post.segment_time_series": 5, "repo_tests.post.bin_features": 5}
 ENDPOINTS = [30, 45, 55, 65, 75, 90]
@@ -272,11 +272,11 @@ def handbuilt(rng, segment_type="three_month_weighted", drop=()):
 def calendar_case(spec, keys):
     from opendsm.eemeter.models.hourly_caltrack.segmentation import segment_time_series
     from opendsm.eemeter.common.features import compute_time_features
-    rng = rng_for(spec["seed"], ID, 1, spec["zi"])
+    rng = rng_for(spec["seed"], ID, 1, spec["zi"], spec.get("win", 0))
     tz = spec["tz"]
     # calendar years, a 365-day window that starts mid-month (March occurs in two separate runs) and a two-year window (every month twice)
     for year, (w0, w1) in (("2020", ("2020-01-01", "2021-01-01")), ("2021", ("2021-01-01", "2022-01-01")),
-                           ("2020-03-15..2021-03-14", ("2020-03-15", "2021-03-15")), ("2020+2021", ("2020-01-01", "2022-01-01"))):
+                           ("2020-03-15..2021-03-14", ("2020-03-15", "2021-03-15")), ("2020+2021", ("2020-01-01", "2022-01-01")))[spec.get("win", 0):spec.get("win", 3) + 1]:
         idx = pd.date_range(pd.Timestamp(w0, tz=tz), pd.Timestamp(w1, tz=tz), freq="h", inclusive="left")
         if "-" in year or "+" in year:
             I.reach("boundary.routing_month_in_two_runs")
@@ -284,6 +284,30 @@ def calendar_case(spec, keys):
             segment_time_series(idx, st)
             segment_time_series(idx[: int(rng.integers(30, 4000))], st, drop_zero_weight_segments=True)
             keys.add("cal|%s|%s|%s" % (tz, year, st))
+        # ---- the same period seen again in one process: the same instants on another wall clock (a fleet in several zones served from one UTC
+        #      archive), and other indexes with the same end points and length (a missing hour here or there); every call is judged by the contract
+        others = [z for z in ("UTC", "America/Los_Angeles", "Asia/Kolkata", "Australia/Sydney", "Europe/Berlin") if z != tz][: 2 if year in ("2021", "2020+2021") else 4]
+        for z2 in others:
+            idx2 = idx.tz_convert(z2)
+            for st in ("one_month", "three_month", "three_month_weighted"):
+                segment_time_series(idx2, st)
+                I.reach("history.same_instants_on_another_wall_clock")
+            m0 = handbuilt(rng)
+            T0 = pd.Series(rng.uniform(-30, 120, len(idx2)).round(3), index=idx2)
+            p0 = m0.predict(idx2, T0).result["predicted_usage"].reindex(idx2)
+            f0 = local_fields(idx2)
+            y0 = p0.to_numpy(dtype=float)
+            ok0 = ~np.isnan(y0)
+            if not np.array_equal((np.round(y0[ok0] - T0.to_numpy()[ok0] / 1000.0) // 1000).astype(int), f0[ok0, 0]) or (~ok0).any():
+                add("routing-wrong-month-model", "%s seen in %s after %s in one process: hours predicted by another month's model (or by none)" % (year, z2, tz), tz=z2)
+        for rep in range(3):
+            # the hour that is absent moves across a month boundary: same first/last timestamp, same length, another calendar
+            b = int(np.flatnonzero(np.diff(local_fields(idx)[:, 0]) != 0)[rep % 11]) if len(idx) > 2000 else 5
+            for k in (b - 2, b + 3):
+                idx3 = idx.delete(k)
+                for st in ("one_month", "three_month_weighted"):
+                    segment_time_series(idx3, st)
+                    I.reach("history.same_end_points_and_length_another_interior")
         compute_time_features(idx)
         # ---- routing through the real predict, hand-built model ------------------------------------------
         m = handbuilt(rng)
@@ -410,7 +434,7 @@ ZONES_T = ZONES_Q + ["Europe/London", "America/Los_Angeles", "Europe/Berlin", "P
 
 def gen_cases(tier, seed):
     zones = ZONES_Q if tier == "quick" else ZONES_T
-    cases = [dict(kind="calendar", tz=z, zi=i) for i, z in enumerate(zones)] + [dict(kind="bins")]
+    cases = [dict(kind="calendar", tz=z, zi=i, win=w) for i, z in enumerate(zones) for w in range(4)] + [dict(kind="bins")]      # one worker per (zone, window)
     if tier == "thorough":
         cases += [dict(kind="fit", tz=z, batch=i, timeout=3000) for i, z in enumerate(["America/Chicago", "Australia/Sydney"])]
         cases.append(dict(kind="repo-tests", timeout=3000))
